@@ -36,10 +36,12 @@ type NormalEstimator struct {
   // parameters
   n        int
   SigmaMin float64
-  // state
+  // state (per thread): sum of the weights, weighted mean and
+  // weighted sum of the products of the deviations from the mean
   sum_g     []float64
   sum_m   [][]float64
   sum_s [][][]float64
+  sum_d   [][]float64
   gamma_max float64
 }
 
@@ -92,9 +94,11 @@ func (obj *NormalEstimator) Initialize(p ThreadPool) error {
   obj.sum_g = make(    []float64, p.NumberOfThreads())
   obj.sum_m = make(  [][]float64, p.NumberOfThreads())
   obj.sum_s = make([][][]float64, p.NumberOfThreads())
+  obj.sum_d = make(  [][]float64, p.NumberOfThreads())
   for i := 0; i < p.NumberOfThreads(); i++ {
     obj.sum_g[i] = 0.0
     obj.sum_m[i] = make(  []float64, obj.n)
+    obj.sum_d[i] = make(  []float64, obj.n)
     obj.sum_s[i] = make([][]float64, obj.n)
     for j := 0; j < obj.n; j++ {
       obj.sum_s[i][j] = make([]float64, obj.n)
@@ -109,27 +113,30 @@ func (obj *NormalEstimator) NewObservation(x ConstVector, gamma ConstScalar, p T
     return fmt.Errorf("x has invalid dimension (expected dimension `%d' but data has dimension `%d')", obj.n, x.Dim())
   }
   id := p.GetThreadId()
-  if gamma == nil {
-    obj.sum_g[id] += 1.0
+  g  := 1.0
+  if gamma != nil {
+    g = math.Exp(gamma.GetFloat64() - obj.gamma_max)
+  }
+  // update mean and sum of the products of deviations (West's weighted
+  // version of Welford's algorithm); the difference E[x x^T] - E[x]E[x]^T
+  // of plain sums loses all digits if the mean is large compared to sigma
+  if g > 0.0 {
+    d := obj.sum_d[id]
+    w := obj.sum_g[id]
+    obj.sum_g[id] += g
     for i := 0; i < obj.n; i++ {
-      xi := x.ConstAt(i).GetFloat64()
-      obj.sum_m[id][i] += xi
+      d[i] = x.ConstAt(i).GetFloat64() - obj.sum_m[id][i]
+      obj.sum_m[id][i] += d[i]*(g/obj.sum_g[id])
+    }
+    f := g*(w/obj.sum_g[id])
+    for i := 0; i < obj.n; i++ {
       for j := 0; j < obj.n; j++ {
-        xj := x.ConstAt(j).GetFloat64()
-        obj.sum_s[id][i][j] += xi*xj
+        obj.sum_s[id][i][j] += d[i]*d[j]*f
       }
     }
   } else {
-    g := math.Exp(gamma.GetFloat64() - obj.gamma_max)
+    // also records a weight that is not a number
     obj.sum_g[id] += g
-    for i := 0; i < obj.n; i++ {
-      xi := x.ConstAt(i).GetFloat64()
-      obj.sum_m[id][i] += g*xi
-      for j := 0; j < obj.n; j++ {
-        xj := x.ConstAt(j).GetFloat64()
-        obj.sum_s[id][i][j] += g*xi*xj
-      }
-    }
   }
   return nil
 }
@@ -141,21 +148,35 @@ func (obj *NormalEstimator) estimateParameters() (Vector, Matrix, int) {
   sum_g := obj.sum_g[0]
   sum_m := obj.sum_m[0]
   sum_s := obj.sum_s[0]
+  // merge the results of the threads
   for k := 1; k < len(obj.sum_m); k++ {
-    sum_g += obj.sum_g[k]
-    for i := 0; i < obj.n; i++ {
-      sum_m[i] += obj.sum_m[k][i]
-      for j := 0; j < obj.n; j++ {
-        sum_s[i][j] += obj.sum_s[k][i][j]
+    if obj.sum_g[k] > 0.0 && sum_g > 0.0 {
+      d := obj.sum_d[k]
+      w := sum_g
+      sum_g += obj.sum_g[k]
+      for i := 0; i < obj.n; i++ {
+        d[i] = obj.sum_m[k][i] - sum_m[i]
+        sum_m[i] += d[i]*(obj.sum_g[k]/sum_g)
       }
+      f := obj.sum_g[k]*(w/sum_g)
+      for i := 0; i < obj.n; i++ {
+        for j := 0; j < obj.n; j++ {
+          sum_s[i][j] += obj.sum_s[k][i][j] + d[i]*d[j]*f
+        }
+      }
+    } else
+    if obj.sum_g[k] > 0.0 {
+      sum_g, sum_m, sum_s = obj.sum_g[k], obj.sum_m[k], obj.sum_s[k]
+    } else {
+      sum_g += obj.sum_g[k]
     }
   }
   mu := NullDenseFloat64Vector(obj.n)
   si := NullDenseFloat64Matrix(obj.n, obj.n)
   for i := 0; i < obj.n; i++ {
-    mu.At(i).SetFloat64(sum_m[i]/sum_g)
+    mu.At(i).SetFloat64(sum_m[i])
     for j := 0; j < obj.n; j++ {
-      si.At(i,j).SetFloat64(sum_s[i][j]/sum_g - sum_m[i]/sum_g*sum_m[j]/sum_g)
+      si.At(i,j).SetFloat64(sum_s[i][j]/sum_g)
     }
     if s := si.At(i,i).GetFloat64(); math.IsNaN(s) || s < obj.SigmaMin {
       si.At(i,i).SetFloat64(obj.SigmaMin)
@@ -164,6 +185,7 @@ func (obj *NormalEstimator) estimateParameters() (Vector, Matrix, int) {
   obj.sum_g = nil
   obj.sum_m = nil
   obj.sum_s = nil
+  obj.sum_d = nil
   return mu, si, int(math.Round(sum_g))
 }
 
